@@ -213,6 +213,12 @@ func c16FilesAt(r *RNG, ds []c16Decl, nfiles int, mode int) fstest.MapFS {
 			fs[c16Dirs[mode]+"/"+tn] = &fstest.MapFile{Data: []byte("package app\n\nfunc init() {\n\tprintln(\"BAD test file\")\n}\n")}
 		}
 	}
+	// files that hold nothing but the package clause, first, in the middle or last in the name order
+	for _, en := range []string{"a00.go", "f00a.go", "zzz.go"} {
+		if r.Intn(3) == 0 {
+			fs[c16Dirs[mode]+"/"+en] = &fstest.MapFile{Data: []byte("package app\n")}
+		}
+	}
 	if mode != 0 {
 		fs["main/main.go"] = &fstest.MapFile{Data: []byte(fmt.Sprintf("package main\n\nimport %q\n\nfunc Main() {\n\tapp.Main()\n}\n", c16Imports[mode]))}
 	}
